@@ -40,10 +40,12 @@ AllProfiles == {
     Prof("q_trees",    3, 1, 2, 2, 0, {1}, {2}, {}, 4, Both),
     Prof("q_periodic", 2, 2, 1, 2, 1, {1}, {2}, {2}, 4, {"adv"}),
     Prof("q_mixed",    3, 1, 1, 2, 1, {1}, {}, {2}, 4, {"adv"}),
+    \* cancels under start(): the only place where discarding a cancelled entry shows in the clock (two allowed outcomes)
+    Prof("q_cancel",   3, 2, 1, 0, 1, {1}, {2}, {}, 4, {"start"}),
     \* thorough
     Prof("t_trees",    4, 1, 2, 2, 0, {1}, {2}, {}, 4, Both),
-    Prof("t_forest",   3, 2, 2, 2, 1, {1}, {0, 2}, {}, 4, Both),
-    Prof("t_periodic", 3, 2, 1, 2, 1, {1}, {2}, {1, 2}, 4, {"adv"}),
+    Prof("t_forest",   3, 2, 2, 2, 0, {1}, {0, 2}, {}, 4, Both),
+    Prof("t_periodic", 3, 2, 1, 2, 1, {1}, {2}, {2}, 4, {"adv"}),
     Prof("t_mixed",    3, 2, 2, 2, 1, {1}, {}, {2}, 5, {"adv"}),
     \* simulation only
     Prof("sim",        6, 2, 3, 3, 2, {0, 1, 3}, {0, 2, 5}, {1, 2, 3}, 6, Both) }
